@@ -236,6 +236,20 @@ func selfTest(pr *rules.Property, base *an.Prog) *an.SelfTest {
 				results[i] = r
 				return
 			}
+			if m.Rule == "-" {
+				// behaviour-preserving variant: every rule must stay silent
+				if fs := c.Failures(); len(fs) == 0 {
+					r.killed = true
+					r.detail = fmt.Sprintf("%s → silent, as required for a behaviour-preserving variant", m.Name)
+				} else if fs[0].Rule == "type-check" {
+					r.broken = true
+					r.detail = fmt.Sprintf("%s: variant does not compile (fix the self-test): %s", m.Name, fs[0].Msg)
+				} else {
+					r.detail = fmt.Sprintf("%s: FALSE ALARM on a behaviour-preserving variant: %s (%s)", m.Name, fs[0].Key, fs[0].Msg)
+				}
+				results[i] = r
+				return
+			}
 			for _, ob := range c.Failures() {
 				if ob.Rule == "type-check" {
 					r.broken = true
